@@ -145,6 +145,10 @@ class MatchTruth:
 
 def rxmethod(I, pat, name, args, kwargs):
     if name == "sub":
+        from .values import SOpaqueStr
+        if len(args) == 2 and isinstance(args[0], str) and isinstance(payload(args[1]), SOpaqueStr):
+            return SOpaqueStr(f"re.sub(pattern={pat.pattern!r}, flags={pat.flags}, repl={args[0]!r}, "
+                              f"string={payload(args[1]).term})")
         raise Unsupported("Pattern.sub outside the contract of common.clean")
     if name == "search":
         raise Unsupported("Pattern.search")
@@ -245,6 +249,11 @@ def m_re_fullmatch(I, pattern, string, flags=0):
 def strmethod(I, s, name, args, kwargs):
     s = payload(s)
     args = [payload(a) for a in args]
+    from .values import SOpaqueStr
+    if isinstance(s, SOpaqueStr):
+        if any(deep_sym(a) for a in args) or kwargs:
+            raise Unsupported(f"str.{name} on an opaque string with symbolic arguments")
+        return SOpaqueStr(f"{s.term}.{name}({', '.join(repr(a) for a in args)})")
     if isinstance(s, str) and not any(deep_sym(a) for a in args):
         try:
             r = getattr(s, name)(*args, **kwargs)
@@ -303,10 +312,13 @@ def strmethod(I, s, name, args, kwargs):
             return False
         return I.str_eq(SStr(s.chars[len(s) - len(p):]), p)
     if name in ("lstrip", "rstrip", "strip"):
-        if len(args) != 1 or not isinstance(args[0], str):
+        if len(args) > 1 or (args and not isinstance(args[0], str) and args[0] is not None):
             raise Unsupported(f"str.{name} without a constant character set")
         chars = list(s.chars)
         def member(c):
+            if not args or args[0] is None:
+                # assumed: str.strip() strips str.isspace() characters = the \\s set of str patterns (enumerated)
+                return rx.in_ranges(c, rx.uni_space())
             return z3.Or(*[c == ord(x) for x in args[0]])
         if name in ("lstrip", "strip"):
             while chars and I.branch(SBool(member(chars[0]))):
